@@ -43,7 +43,7 @@ theorem C18_history_extends (ops : List Op) (c : Cond) : c.st.Ext (runOps E ops 
 theorem C18_record_core_fixed (ops : List Op) (c : Cond) (i : Nat) (r : Rec)
     (h : c.st.sequence[i]? = some r) :
     ∃ r', (runOps E ops c).st.sequence[i]? = some r' ∧ r'.core = r.core := by
-  obtain ⟨_, _, l, hl⟩ := C18_history_extends E ops c
+  obtain ⟨_, _, ⟨l, hl⟩, _⟩ := C18_history_extends E ops c
   have h1 : (c.st.sequence.map Rec.core)[i]? = some r.core := by simp [h]
   have h2 : ((runOps E ops c).st.sequence.map Rec.core)[i]? = some r.core := by
     rw [hl]
